@@ -4,6 +4,7 @@ mod doc;
 mod frags;
 mod gen;
 mod kinds;
+mod lspdrv;
 mod pipeline;
 mod refsem;
 mod rewrite;
